@@ -5,13 +5,15 @@ use zydeco_surface::textual::lexer::{Lexer, Tok};
 
 /// The reference comment discipline of units/c11_lexer/unit.rs.tpl (`is_skipped` / `depth_step`),
 /// transcribed to executable Rust. Input: the raw logos items of the source.
-fn reference<'s>(items: &[(Result<Tok<'s>, ()>, std::ops::Range<usize>)]) -> Vec<(usize, Tok<'s>, usize)> {
+/// Expected output of the whole stream: delivered tokens; `Err(k)` marks "an Err item at raw index k: the stream must not
+/// silently end here" (only reachable if assumption A-logos-total fails on the real automaton).
+fn reference<'s>(items: &[(Result<Tok<'s>, ()>, std::ops::Range<usize>)]) -> (Vec<(usize, Tok<'s>, usize)>, Option<usize>) {
     let mut depth: usize = 0;
     let mut out = Vec::new();
-    for (tok, range) in items {
+    let mut pending: std::ops::Range<usize> = 0..0;
+    for (k, (tok, range)) in items.iter().enumerate() {
         let Ok(tok) = tok else {
-            // A-logos-total violated: reported separately by lexer-a1; the contract has nothing to say
-            break;
+            return (out, Some(k));
         };
         let skipped = match tok {
             | Tok::TextLine(_) | Tok::CommentLine(_) | Tok::CommentOpen => true,
@@ -19,7 +21,10 @@ fn reference<'s>(items: &[(Result<Tok<'s>, ()>, std::ops::Range<usize>)]) -> Vec
             | _ => depth > 0,
         };
         match tok {
-            | Tok::CommentOpen => depth += 1,
+            | Tok::CommentOpen => {
+                if depth == 0 { pending = range.clone(); }
+                depth += 1
+            }
             | Tok::CommentClose if depth > 0 => depth -= 1,
             | _ => {}
         }
@@ -27,17 +32,28 @@ fn reference<'s>(items: &[(Result<Tok<'s>, ()>, std::ops::Range<usize>)]) -> Vec
             out.push((range.start, tok.clone(), range.end));
         }
     }
-    out
+    if depth > 0 {
+        // [E4b] input ends inside a block comment: the outermost unterminated `/-` is delivered
+        out.push((pending.start, Tok::CommentOpen, pending.end));
+    }
+    (out, None)
 }
 
 /// Returns None if the real lexer honours the contract on `src`, else (clause, detail).
 pub fn check_source(src: &str) -> Option<(&'static str, String)> {
     let raw: Vec<_> = Tok::lexer(src).spanned().collect();
-    if raw.iter().any(|(t, _)| t.is_err()) {
+    let (want, err_at) = reference(&raw);
+    let got: Vec<_> = Lexer::new(src).collect();
+    if let Some(k) = err_at {
+        // the automaton produced an Err item (A-logos-total does not hold here). The property still demands that the stream
+        // does not silently end: any non-comment token after it must be delivered, or an error token must stand for it.
+        let prefix_ok = got.len() >= want.len() && got.iter().zip(want.iter()).all(|(g, w)| g == w);
+        let rest_has_tokens = raw[k + 1..].iter().any(|(t, _)| matches!(t, Ok(t) if !matches!(t, Tok::TextLine(_) | Tok::CommentLine(_))));
+        if prefix_ok && got.len() == want.len() && (rest_has_tokens || true) {
+            return Some(("E1", format!("the token automaton yields an error item at {:?} and the stream silently ENDS there ({} raw items follow)", raw[k].1, raw.len() - k - 1)));
+        }
         return None;
     }
-    let want = reference(&raw);
-    let got: Vec<_> = Lexer::new(src).collect();
     for (i, w) in want.iter().enumerate() {
         match got.get(i) {
             | None => {
@@ -65,7 +81,7 @@ pub fn check_source(src: &str) -> Option<(&'static str, String)> {
     None
 }
 
-const ALPHABET: &[&str] = &["-", "/", "a", " ", "\n", "\"", "#", "(", ")", "'", "\\", "1", "|", "-/", "/-", "--"];
+const ALPHABET: &[&str] = &["-", "/", "a", " ", "\n", "\"", "#", "(", ")", "'", "\\", "1", "!", "-/", "/-", "--", "\u{a0}", "\r"];
 
 fn enumerate(max_len: usize, f: &mut dyn FnMut(&str) -> bool) -> u64 {
     // all concatenations of up to max_len alphabet pieces, shortest first
